@@ -492,3 +492,12 @@ CHECKS['C16'].update({
             "proved;", "`q.match(p, REALPATH) <-> q in Path('.').rglob(p)` is proved for literal patterns only (C16_match_rglob_literal); for magic patterns it is false as "
             "stated (KF-D6/D7/D8/G3/G8/RGLOBSTAR/PARTPREFIX) and is compared on every entry of every tree;"),
 })
+_c02c = CHECKS['C02']['text']
+CHECKS['C02'].update({
+    'text': _c02c.replace("C02neg_globfree / C02neg_glob —", "C02neg_faithful_globfree / _glob / C02_matchbase_faithful (pass_print_path_neg, pass_print_matchbase, "
+                          "pass_print_path_matchbase_sep: the FAITHFUL PORT on printed patterns with one top-level `!(...)` per segment — the per-segment clean-up of the "
+                          "pending look-ahead, match_dot_dir — and under MATCHBASE — the separately parsed `**`/`***` prefix, dropped by any top-level separator); "
+                          "C02neg_globfree / C02neg_glob —"),
+    'note': CHECKS['C02']['note'].replace("PARTIAL: for `!(...)` segments and MATCHBASE the link faithful port <-> tidy compiler is tested (decide+kernel on pattern lists, K1'-path), not proved; nested / ",
+                                          "PARTIAL: nested / "),
+})
